@@ -2444,3 +2444,241 @@ Section L007Clears.
     apply on_lines_nil. intros n l Hl. apply in_map_iff in Hl. destruct Hl as (l0 & E & _). subst. apply l007_line_clears.
   Qed.
 End L007Clears.
+
+(* ------------------------------------------------------------------------------------------------ *)
+(* L002, L003: exact flagging; locations *)
+
+Lemma ikind_cases : forall l, ikind l = 0 \/ ikind l = 1 \/ ikind l = 2 \/ ikind l = 3.
+Proof.
+  intro l. unfold ikind. destruct (leading_ws l); [auto|].
+  destruct (existsb is_tab (c :: l0) && existsb is_sp (c :: l0)); [auto|]. destruct (existsb is_tab (c :: l0)); auto.
+Qed.
+
+Lemma eff_cons_skip : forall first l pre, (ikind l = 0 \/ ikind l = 3) -> eff first (l :: pre) = eff first pre.
+Proof. intros first l pre H. unfold eff. cbn [map first_pure]. destruct H as [H|H]; rewrite H; reflexivity. Qed.
+
+Lemma eff_cons_pure : forall first l pre, (ikind l = 1 \/ ikind l = 2) ->
+  eff first (l :: pre) = if first =? 0 then ikind l else first.
+Proof. intros first l pre H. unfold eff. cbn [map first_pure]. destruct H as [H|H]; rewrite H; reflexivity. Qed.
+
+Lemma eff_nz : forall first pre, first <> 0 -> eff first pre = first.
+Proof. intros first pre H. unfold eff. apply N.eqb_neq in H. rewrite H. reflexivity. Qed.
+
+Lemma l002_step : forall first l, exists first' (fl : bool),
+  (forall k r, l002_check_lines first k (l :: r) = (if fl then [(k, 1%nat)] else []) ++ l002_check_lines first' (S k) r) /\
+  (fl = true <-> l002_defect first [] l) /\
+  (forall pre, eff first' pre = eff first (l :: pre)).
+Proof.
+  intros first l. unfold l002_defect. pose proof (ikind_cases l) as K. unfold ikind in *.
+  destruct (leading_ws l) as [|c lw] eqn:El.
+  - exists first, false. split; [intros k r; cbn [l002_check_lines]; rewrite El; reflexivity|]. split.
+    + split; [discriminate|]. intros [H|([H|H] & _)]; discriminate.
+    + intro pre. symmetry. apply eff_cons_skip. left. unfold ikind. rewrite El. reflexivity.
+  - set (ht := existsb is_tab (c :: lw)) in *. set (hs := existsb is_sp (c :: lw)) in *.
+    destruct (ht && hs) eqn:Em.
+    + exists first, true. split; [intros k r; cbn [l002_check_lines]; rewrite El; fold ht hs; rewrite Em; reflexivity|]. split.
+      * split; [intros _; left; reflexivity|reflexivity].
+      * intro pre. symmetry. apply eff_cons_skip. right. unfold ikind. rewrite El. fold ht hs. rewrite Em. reflexivity.
+    + set (cur := if ht then 1 else 2).
+      assert (Kc : (if ht then 1 else 2) = cur) by reflexivity.
+      assert (Ec : forall pre, eff first (l :: pre) = if first =? 0 then cur else first).
+      { intro pre. rewrite eff_cons_pure; [unfold ikind; rewrite El; fold ht hs; rewrite Em; reflexivity|].
+        unfold ikind. rewrite El. fold ht hs. rewrite Em. destruct ht; auto. }
+      assert (Cnz : cur <> 0) by (unfold cur; destruct ht; discriminate).
+      assert (Cpure : cur = 1 \/ cur = 2) by (unfold cur; destruct ht; auto).
+      destruct (first =? 0) eqn:E0.
+      * exists cur, false. split; [intros k r; cbn [l002_check_lines]; rewrite El; fold ht hs; rewrite Em; fold cur; rewrite E0; reflexivity|]. split.
+        -- split; [discriminate|]. intros [H|(_ & H & _)]; [try rewrite Kc in H; destruct Cpure as [C|C]; rewrite C in H; discriminate|].
+           exfalso. apply H. unfold eff. rewrite E0. reflexivity.
+        -- intro pre. rewrite Ec. apply eff_nz. exact Cnz.
+      * apply N.eqb_neq in E0. destruct (first =? cur) eqn:E1.
+        -- exists first, false. split; [intros k r; cbn [l002_check_lines]; rewrite El; fold ht hs; rewrite Em; fold cur;
+             replace (first =? 0) with false by (symmetry; apply N.eqb_neq; exact E0); rewrite E1; reflexivity|]. split.
+           ++ split; [discriminate|]. intros [H|(_ & _ & H)]; [try rewrite Kc in H; destruct Cpure as [C|C]; rewrite C in H; discriminate|].
+              exfalso. apply H. rewrite eff_nz by exact E0. try rewrite Kc. apply N.eqb_eq. exact E1.
+           ++ intro pre. rewrite Ec. rewrite !eff_nz by exact E0. replace (first =? 0) with false by (symmetry; apply N.eqb_neq; exact E0). reflexivity.
+        -- exists first, true. split; [intros k r; cbn [l002_check_lines]; rewrite El; fold ht hs; rewrite Em; fold cur;
+             replace (first =? 0) with false by (symmetry; apply N.eqb_neq; exact E0); rewrite E1; reflexivity|]. split.
+           ++ split; [intros _|reflexivity]. right. try rewrite Kc. split; [exact Cpure|]. rewrite eff_nz by exact E0. split; [exact E0|].
+              apply N.eqb_neq. exact E1.
+           ++ intro pre. rewrite Ec. rewrite !eff_nz by exact E0. replace (first =? 0) with false by (symmetry; apply N.eqb_neq; exact E0). reflexivity.
+Qed.
+
+Lemma l002_defect_shift : forall first first' l0 pre l, (forall p, eff first' p = eff first (l0 :: p)) ->
+  (l002_defect first' pre l <-> l002_defect first (l0 :: pre) l).
+Proof. intros first first' l0 pre l H. unfold l002_defect. rewrite H. tauto. Qed.
+
+Lemma l002_lines_exact : forall ls first k n col,
+  In (n, col) (l002_check_lines first k ls) <->
+  col = 1%nat /\ exists i l, nth_error ls i = Some l /\ n = (k + i)%nat /\ l002_defect first (firstn i ls) l.
+Proof.
+  induction ls as [|l0 r IH]; intros first k n col.
+  - cbn. split; [intros []|]. intros (_ & i & l & H & _). destruct i; discriminate.
+  - destruct (l002_step first l0) as (first' & fl & Hs & Hf & He). rewrite Hs. rewrite in_app_iff. rewrite IH. split.
+    + intros [H|(Hc & i & l & Hn & En & Hd)].
+      * destruct fl; [|destruct H]. destruct H as [H|[]]. inversion H; subst. split; [reflexivity|].
+        exists 0%nat, l0. split; [reflexivity|]. split; [lia|]. cbn [firstn]. apply Hf. reflexivity.
+      * split; [exact Hc|]. exists (S i), l. split; [exact Hn|]. split; [lia|]. cbn [firstn].
+        apply (l002_defect_shift first first' l0 _ l He). exact Hd.
+    + intros (Hc & i & l & Hn & En & Hd). destruct i as [|i].
+      * cbn in Hn. inversion Hn; subst. cbn [firstn] in Hd. apply Hf in Hd. subst fl. left. left. f_equal. lia.
+      * right. split; [exact Hc|]. exists i, l. split; [exact Hn|]. split; [lia|]. cbn [firstn] in Hd.
+        apply (l002_defect_shift first first' l0 _ l He). exact Hd.
+Qed.
+
+Theorem l002_check_exact : forall t n col,
+  In (n, col) (l002_check t) <->
+  col = 1%nat /\ (1 <= n)%nat /\ exists l, nth_error (split_nl t) (n - 1) = Some l /\ l002_defect 0 (firstn (n - 1) (split_nl t)) l.
+Proof.
+  intros t n col. unfold l002_check. rewrite l002_lines_exact. split.
+  - intros (Hc & i & l & Hn & En & Hd). subst n. replace (1 + i - 1)%nat with i by lia. split; [exact Hc|]. split; [lia|]. exists l. split; assumption.
+  - intros (Hc & H1 & l & Hn & Hd). split; [exact Hc|]. exists (n - 1)%nat, l. split; [exact Hn|]. split; [lia|exact Hd].
+Qed.
+
+Section L003Exact.
+  Variable is_space : N -> bool.
+  Notation blank := (blank_line is_space).
+
+  Notation run_from := (run_from is_space).
+  Notation startsG := (startsG is_space).
+
+  Lemma run_cons_blank : forall l r, blank l = true -> run_from (l :: r) 0 = S (run_from r 0).
+  Proof. intros l r H. unfold Lint.run_from. cbn [skipn take_l]. rewrite H. reflexivity. Qed.
+  Lemma run_cons_nb : forall l r, blank l = false -> run_from (l :: r) 0 = 0%nat.
+  Proof. intros l r H. unfold Lint.run_from. cbn [skipn take_l]. rewrite H. reflexivity. Qed.
+  Lemma run_S : forall l r i, run_from (l :: r) (S i) = run_from r i.
+  Proof. reflexivity. Qed.
+  Lemma run_nil : forall i, run_from [] i = 0%nat.
+  Proof. intros [|i]; reflexivity. Qed.
+
+  Lemma startsG_shift : forall cnt c' l r i, startsG c' r (S i) <-> startsG cnt (l :: r) (S (S i)).
+  Proof. intros. unfold Lint.startsG. cbn [nth_error]. tauto. Qed.
+
+  Lemma l003_lines_exact : forall mx ls cnt start k n col,
+    In (n, col) (l003_check_lines is_space mx cnt start k ls) <->
+    col = 1%nat /\ ((0 < cnt /\ n = start /\ mx < cnt + run_from ls 0)%nat \/
+                    (exists i, n = (k + i)%nat /\ startsG cnt ls i /\ (mx < run_from ls i)%nat)).
+  Proof.
+    intros mx. induction ls as [|l r IH]; intros cnt start k n col.
+    - cbn [l003_check_lines]. rewrite run_nil. split.
+      + destruct (mx <? cnt)%nat eqn:E; [|intros []]. intros [H|[]]. inversion H; subst. apply Nat.ltb_lt in E.
+        split; [reflexivity|]. left. lia.
+      + intros (Hc & [(H1 & H2 & H3)|(i & _ & ((l & Hl & _) & _) & _)]); [|destruct i; discriminate].
+        replace (mx <? cnt)%nat with true by (symmetry; apply Nat.ltb_lt; lia). left. subst. reflexivity.
+    - cbn [l003_check_lines]. destruct (blank l) eqn:Eb.
+      + rewrite IH. rewrite (run_cons_blank l r Eb).
+        split; intros (Hc & H); (split; [exact Hc|]).
+        * destruct H as [(H1 & H2 & H3)|(i & H1 & H2 & H3)].
+          -- destruct (cnt =? 0)%nat eqn:Ec.
+             ++ apply Nat.eqb_eq in Ec. subst cnt. right. exists 0%nat. split; [lia|]. split.
+                ** split; [exists l; split; [reflexivity|exact Eb]|reflexivity].
+                ** rewrite (run_cons_blank l r Eb). lia.
+             ++ apply Nat.eqb_neq in Ec. left. lia.
+          -- right. exists (S i). split; [lia|]. split.
+             ++ destruct i as [|j]; [destruct H2 as (_ & H2); discriminate|]. apply (startsG_shift cnt (S cnt) l r j). exact H2.
+             ++ rewrite run_S. exact H3.
+        * destruct H as [(H1 & H2 & H3)|(i & H1 & H2 & H3)].
+          -- left. destruct (cnt =? 0)%nat eqn:Ec; [apply Nat.eqb_eq in Ec; lia|]. lia.
+          -- destruct i as [|[|j]].
+             ++ destruct H2 as (_ & H2). subst cnt. left. cbn [Nat.eqb]. rewrite (run_cons_blank l r Eb) in H3. lia.
+             ++ destruct H2 as (_ & (p & Hp & Hb)). cbn in Hp. inversion Hp; subst. congruence.
+             ++ right. exists (S j). split; [lia|]. split; [apply (startsG_shift cnt (S cnt) l r j); exact H2|].
+                rewrite run_S in H3. exact H3.
+      + rewrite in_app_iff. rewrite IH. rewrite (run_cons_nb l r Eb).
+        split.
+        * intros [H|(Hc & H)].
+          -- destruct (mx <? cnt)%nat eqn:E; [|destruct H]. destruct H as [H|[]]. inversion H; subst. apply Nat.ltb_lt in E.
+             split; [reflexivity|]. left. lia.
+          -- split; [exact Hc|]. destruct H as [(H1 & _)|(i & H1 & H2 & H3)]; [lia|]. right. exists (S i). split; [lia|]. split.
+             ++ destruct i as [|j].
+                ** destruct H2 as (H2 & _). split; [exact H2|]. exists l. split; [reflexivity|exact Eb].
+                ** apply (startsG_shift cnt 0%nat l r j). exact H2.
+             ++ rewrite run_S. exact H3.
+        * intros (Hc & [(H1 & H2 & H3)|(i & H1 & H2 & H3)]).
+          -- left. replace (mx <? cnt)%nat with true by (symmetry; apply Nat.ltb_lt; lia). left. subst. reflexivity.
+          -- right. split; [exact Hc|]. right. destruct i as [|[|j]].
+             ++ destruct H2 as ((l' & Hl & Hb) & _). cbn in Hl. inversion Hl; subst. congruence.
+             ++ exists 0%nat. split; [lia|]. split; [destruct H2 as (H2 & _); split; [exact H2|reflexivity]|].
+                rewrite run_S in H3. exact H3.
+             ++ exists (S j). split; [lia|]. split; [apply (startsG_shift cnt 0%nat l r j); exact H2|].
+                rewrite run_S in H3. exact H3.
+  Qed.
+
+  (* the defect L003 names: line n starts a run of more than mx consecutive blank lines *)
+  Theorem l003_check_exact : forall mx t n col,
+    In (n, col) (l003_check_mx is_space mx t) <->
+    col = 1%nat /\ (1 <= n)%nat /\ startsG 0 (split_nl t) (n - 1) /\ (mx < run_from (split_nl t) (n - 1))%nat.
+  Proof.
+    intros mx t n col. unfold l003_check_mx. rewrite l003_lines_exact. split.
+    - intros (Hc & [(H1 & _)|(i & H1 & H2 & H3)]); [lia|]. subst n. replace (1 + i - 1)%nat with i by lia. repeat split; try assumption; try lia; apply H2.
+    - intros (Hc & H1 & H2 & H3). split; [exact Hc|]. right. exists (n - 1)%nat. split; [lia|]. split; assumption.
+  Qed.
+End L003Exact.
+
+(* ---------------- locations: every reported line exists ---------------- *)
+
+Lemma on_lines_line : forall f ls k n col, In (n, col) (on_lines f k ls) -> (forall m l v, In v (f m l) -> fst v = m) ->
+  (k <= n < k + length ls)%nat.
+Proof.
+  intros f ls k n col H Hf. apply on_lines_in in H. destruct H as (i & l & Hn & Hin).
+  apply Hf in Hin. cbn [fst] in Hin. subst. assert (i < length ls)%nat by (apply nth_error_Some; congruence). lia.
+Qed.
+
+Lemma l002_lines_loc : forall ls first k n col, In (n, col) (l002_check_lines first k ls) ->
+  (k <= n < k + length ls)%nat /\ col = 1%nat /\ exists l, nth_error ls (n - k) = Some l /\ leading_ws l <> [].
+Proof.
+  induction ls as [|l r IH]; intros first k n col H; [destruct H|]. cbn [l002_check_lines] in H.
+  assert (G : forall f', In (n, col) (l002_check_lines f' (S k) r) ->
+              (k <= n < k + length (l :: r))%nat /\ col = 1%nat /\ exists l0, nth_error (l :: r) (n - k) = Some l0 /\ leading_ws l0 <> []).
+  { intros f' Hr. destruct (IH _ _ _ _ Hr) as (A & B & l0 & C & D). cbn [length]. split; [lia|]. split; [exact B|].
+    exists l0. split; [|exact D]. replace (n - k)%nat with (S (n - S k)) by lia. exact C. }
+  assert (Here : (n, col) = (k, 1%nat) -> leading_ws l <> [] ->
+              (k <= n < k + length (l :: r))%nat /\ col = 1%nat /\ exists l0, nth_error (l :: r) (n - k) = Some l0 /\ leading_ws l0 <> []).
+  { intros E Hne. inversion E; subst. cbn [length]. split; [lia|]. split; [reflexivity|]. exists l. rewrite Nat.sub_diag. split; [reflexivity|exact Hne]. }
+  destruct (leading_ws l) as [|c lw] eqn:El; [apply (G _ H)|].
+  destruct (existsb is_tab (c :: lw) && existsb is_sp (c :: lw)).
+  - destruct H as [H|H]; [apply Here; [symmetry; exact H|discriminate]|apply (G _ H)].
+  - destruct (first =? 0); [apply (G _ H)|]. destruct (first =? (if existsb is_tab (c :: lw) then 1 else 2)); [apply (G _ H)|].
+    destruct H as [H|H]; [apply Here; [symmetry; exact H|discriminate]|apply (G _ H)].
+Qed.
+
+Lemma l003_lines_loc : forall is_space mx ls cnt start k n col,
+  In (n, col) (l003_check_lines is_space mx cnt start k ls) -> (cnt = 0%nat \/ (start + cnt = k)%nat) ->
+  col = 1%nat /\ ((cnt <> 0%nat /\ n = start) \/ (k <= n < k + length ls)%nat).
+Proof.
+  intros is_space mx. induction ls as [|l r IH]; intros cnt start k n col H Hinv.
+  - cbn [l003_check_lines] in H. destruct (mx <? cnt)%nat eqn:E; [|destruct H]. destruct H as [H|[]]. inversion H; subst.
+    split; [reflexivity|]. left. split; [|reflexivity]. apply Nat.ltb_lt in E. lia.
+  - cbn [l003_check_lines] in H. destruct (blank_line is_space l).
+    + destruct (cnt =? 0)%nat eqn:Ec.
+      * apply Nat.eqb_eq in Ec. subst cnt. destruct (IH _ _ _ _ _ H) as (A & B); [right; lia|]. split; [exact A|].
+        right. cbn [length]. destruct B as [(B1 & B2)|B]; lia.
+      * apply Nat.eqb_neq in Ec. destruct (IH _ _ _ _ _ H) as (A & B); [right; lia|]. split; [exact A|].
+        destruct B as [(B1 & B2)|B]; [left; split; [exact Ec|exact B2]|right; cbn [length]; lia].
+    + apply in_app_or in H. destruct H as [H|H].
+      * destruct (mx <? cnt)%nat eqn:E; [|destruct H]. destruct H as [H|[]]. inversion H; subst.
+        split; [reflexivity|]. left. split; [|reflexivity]. apply Nat.ltb_lt in E. lia.
+      * destruct (IH _ _ _ _ _ H) as (A & B); [left; reflexivity|]. split; [exact A|]. right. cbn [length].
+        destruct B as [(B1 & B2)|B]; [contradiction|lia].
+Qed.
+
+Section Loc.
+  Variables is_letter is_digit is_space : N -> bool.
+  Variable upper_ascii : N -> option N.
+  Variable keywords : list (list N).
+
+  Theorem l002_location : forall t n col, In (n, col) (l002_check t) ->
+    (1 <= n <= length (split_nl t))%nat /\ col = 1%nat /\ exists l, nth_error (split_nl t) (n - 1) = Some l /\ l <> [].
+  Proof.
+    intros t n col H. unfold l002_check in H. destruct (l002_lines_loc _ _ _ _ _ H) as (A & B & l & C & D).
+    split; [lia|]. split; [exact B|]. exists l. split; [exact C|]. intro E. subst. apply D. reflexivity.
+  Qed.
+
+  Theorem l003_location : forall mx t n col, In (n, col) (l003_check_mx is_space mx t) ->
+    (1 <= n <= length (split_nl t))%nat /\ col = 1%nat.
+  Proof.
+    intros mx t n col H. unfold l003_check_mx in H. destruct (l003_lines_loc _ _ _ _ _ _ _ _ H (or_introl eq_refl)) as (A & B).
+    split; [|exact A]. destruct B as [(B1 & _)|B]; [contradiction|lia].
+  Qed.
+
+End Loc.
